@@ -34,6 +34,7 @@ import Chrono.Extracted.SerdeLits
 import Chrono.Props.C19
 import Chrono.Proofs.SerdeAnyZonedL
 import Chrono.Proofs.SerdeVisitL
+import Chrono.Proofs.SerdeTsBodiesL
 
 namespace Chrono.Props.C20
 open Chrono Chrono.M Chrono.M.Serde Chrono.Spec Chrono.Spec.Ts Chrono.Spec.Serde Chrono.Proofs.Serde
@@ -89,6 +90,58 @@ theorem literals_ok :
     SD_naive_ts_nanoseconds_option_ser = [3] ∧
     SD_naive_ts_nanoseconds_option_some = [3] := by
   decide
+
+/-- TIE OF THE SIXTEEN MODULES TO THE SOURCE (audit2 gap 2).  tools/extractors/serde_ts.py parses every body of
+every `ts_*` module on every run into a term (Extracted/SerdeBodies.lean; types in Model/SerdeTsCode.lean) that
+records each operator (`/` vs `%` vs `*`, `div_euclid` vs `rem_euclid`), each cast (`as i64` / `as u32` /
+`as u64`), the comparison (`>`), the `from_timestamp*` constructor and whether `.map(|dt| dt.naive_utc())`
+follows, the accessor `serialize` calls, `.and_utc()`, `.ok_or(..)?`, the `serialize_*` / `deserialize_*` method
+requested, the visitor handed over and the `.map(..)` that follows.  Model/SerdeTsEval.lean is a generic
+evaluator of such terms (Rust's debug integer semantics: truncating `/ %` with their panics, checked `*`,
+wrapping `as`), knowing nothing of a particular module.  For all sixteen modules the evaluator applied to the
+EXTRACTED terms is the model function the theorems below are about:
+`serialize` on every value, `deserialize` on every wire integer whose payload fits the visitor method's
+parameter type (`i64` for `visit_i64`, `u64` for `visit_u64`; for `u64` the truncating operators of the source
+coincide with the Euclidean ones of the model), the `_option` modules on every wire option; and each
+`deserialize` asks for `deserialize_i64` / `deserialize_option`, each `visit_some` for `deserialize_i64`
+(what `WInt` / `WOpt` of the model stand for).  Visitor names are resolved through the extracted
+`impl de::Visitor for …` rows, so a body that names another unit's visitor selects that unit's bodies. -/
+theorem ts_bodies_ok (tg : Target) (u : TsUnit) :
+    (∀ dt, Chrono.Proofs.SerdeTsBodies.genSerialize tg u dt = serialize tg u dt) ∧
+    (∀ o, Chrono.Proofs.SerdeTsBodies.genSerializeOption tg u o = serialize_option tg u o) ∧
+    ((Chrono.Proofs.SerdeTsBodies.deRow tg u).m = .deserialize_i64 ∧
+      (Chrono.Proofs.SerdeTsBodies.deOptRow tg u).m = .deserialize_option ∧
+      (Chrono.Proofs.SerdeTsBodies.someRow tg u).m = .deserialize_i64) ∧
+    (∀ w, Chrono.Proofs.SerdeTsBodies.WIntOk w →
+      Chrono.Proofs.SerdeTsBodies.genDeserialize tg u w = deserialize tg u w) ∧
+    (∀ w, Chrono.Proofs.SerdeTsBodies.WOptOk w →
+      Chrono.Proofs.SerdeTsBodies.genDeserializeOption tg u w = deserialize_option tg u w) :=
+  ⟨Chrono.Proofs.SerdeTsBodies.gen_serialize_eq tg u, Chrono.Proofs.SerdeTsBodies.gen_serialize_option_eq tg u,
+   Chrono.Proofs.SerdeTsBodies.methods_ok tg u, Chrono.Proofs.SerdeTsBodies.gen_deserialize_eq tg u,
+   Chrono.Proofs.SerdeTsBodies.gen_deserialize_option_eq tg u⟩
+
+/-- the 32 visitor bodies one by one: extracted term, evaluated = the model's method (for `visit_i64` on every
+integer; for `visit_u64` on every `u64`) -/
+theorem ts_visit_bodies_ok (v : Int) :
+    Chrono.Proofs.SerdeTsBodies.evalVisitRows v = Chrono.Proofs.SerdeTsBodies.modelVisitRows v ∧
+    (isU64 v → Chrono.Proofs.SerdeTsBodies.evalVisitRowsU v = Chrono.Proofs.SerdeTsBodies.modelVisitRowsU v) :=
+  Chrono.Proofs.SerdeTsBodies.visit_rows_eq v
+
+/-- non-vacuity and sensitivity of `ts_bodies_ok`: the evaluator does distinguish the operators — the
+extracted `visit_u64` of `ts_milliseconds` with `/` and `%` exchanged, or with `as u32` dropped to the wrong
+place, is a different function (it panics / answers differently on 1500), and the real one reads 1500 ms as
+1.5 s after the epoch -/
+example :
+    Code.evalVisit .u64 1500 SB_utc_ts_milliseconds_u64 = Utc.MilliSecondsTimestampVisitor.visit_u64 1500 ∧
+    Code.evalVisit .u64 1500 SB_utc_ts_milliseconds_u64 = .ok (.ok ⟨dateOfYo 1970 1, ⟨1, 500000000⟩⟩) ∧
+    Code.evalVisit .u64 1500
+      (.build .from_timestamp [(.cast (.rem .value (.lit 1000)) .i64),
+        (.cast (.mul (.div .value (.lit 1000)) (.lit 1000000)) .u32)] false)
+      ≠ Utc.MilliSecondsTimestampVisitor.visit_u64 1500 ∧
+    Code.evalVisit .i64 (-1) (.build .from_timestamp [(.div .value (.lit 1000000)),
+        (.cast (.mul (.rem .value (.lit 1000000)) (.lit 1000)) .u32)] false)
+      ≠ Utc.MicroSecondsTimestampVisitor.visit_i64 (-1) := by
+  decide +kernel
 
 /-! ## the sixteen timestamp modules: what is written -/
 
@@ -389,6 +442,94 @@ theorem leap_second_not_carried :
     NDTInv dt ∧ ¬ NonLeap dt ∧
     roundTrip binLike .utc .secs dt = .ok (.ok ⟨dateOfYo 2015 181, ⟨86399, 0⟩⟩) ∧
     roundTrip jsonLike .naive .millis dt = .ok (.ok ⟨dateOfYo 2015 182, ⟨0, 500000000⟩⟩) := by
+  decide +kernel
+
+/-- LEAP VALUES THROUGH EVERY TIMESTAMP MODULE, universally (audit2 LOW-3; `leap_second_not_carried` is one
+instance).  For every valid leap-second representation `dt` (nanosecond field in 10⁹..2·10⁹−1, on any second),
+both targets:
+* seconds modules — the integer written is the count of the second the representation is attached to (second
+  :59 for everything the public constructors build), the SAME integer the non-leap value on that second with the
+  fraction reduced by 10⁹ writes (the leap second collapses onto second :59's count); reading it always
+  succeeds and gives the START of that second: leap second and fraction are both lost;
+* milli- and microsecond modules — the fraction survives at the module's precision, counted INTO THE FOLLOWING
+  second: the integer is `instNs / unit`, reading it gives the non-leap value at `instNs` cut down to the unit,
+  which lies in the second after the one `dt` is attached to — or an error exactly when `dt` sits on the last
+  second of the range (writable, not readable); never a panic.
+The nanosecond modules are `ts_exact_leap_full` + `ts_rejects` (`instNs` itself, read back one second later). -/
+theorem ts_leap_roundtrip (tg : Target) (dt : NaiveDT) (h : NDTInv dt) (hl : ¬ NonLeap dt) :
+    (∃ dt', serialize tg .secs dt = .ok (.ok (.i64 (instSecs dt))) ∧
+        serialize tg .secs ⟨dt.date, ⟨dt.time.secs, dt.time.frac - 1000000000⟩⟩ = serialize tg .secs dt ∧
+        deserialize tg .secs (.i64 (instSecs dt)) = .ok (.ok dt') ∧ NDTInv dt' ∧ NonLeap dt' ∧
+        instNs dt' = instSecs dt * 1000000000) ∧
+    (∀ u, u = TsUnit.millis ∨ u = TsUnit.micros →
+      ∃ r, serialize tg u dt = .ok (.ok (.i64 (instNs dt / nsPer u))) ∧
+        deserialize tg u (.i64 (instNs dt / nsPer u)) = .ok r ∧
+        (r = .err ↔ instSecs dt = TS_MAX) ∧
+        ∀ dt', r = .ok dt' → NDTInv dt' ∧ NonLeap dt' ∧ instNs dt' = instNs dt / nsPer u * nsPer u ∧
+          instSecs dt' = instSecs dt + 1) := by
+  have hmin := ts_min_val
+  have hmax := ts_max_val
+  obtain ⟨w1, w2, w3⟩ := ts_exact_leap tg dt h
+  have hr := instSecs_range dt h
+  have hf : 1000000000 ≤ dt.time.frac ∧ dt.time.frac < 2000000000 := by
+    unfold NonLeap at hl
+    have := h.2
+    unfold TValid at this
+    omega
+  have hns : instNs dt = instSecs dt * 1000000000 + dt.time.frac := rfl
+  refine ⟨?_, ?_⟩
+  · have hi : isI64 (instSecs dt) := by unfold isI64; omega
+    obtain ⟨r, r1, r2, r3⟩ := (ts_rejects tg .secs (instSecs dt)).1 hi
+    have hne : r ≠ .err := by
+      intro he
+      have := r2.1 he
+      simp only [perSec] at this
+      omega
+    cases r with
+    | err => exact absurd rfl hne
+    | ok dt' =>
+      obtain ⟨a, b, c⟩ := r3 dt' rfl
+      refine ⟨dt', w1, ?_, r1, a, b, by rw [c]; rfl⟩
+      have h' : NDTInv (⟨dt.date, ⟨dt.time.secs, dt.time.frac - 1000000000⟩⟩ : NaiveDT) := by
+        refine ⟨h.1, ?_⟩
+        have := h.2
+        unfold TValid at this ⊢
+        dsimp only
+        omega
+      rw [(ts_exact_leap tg _ h').1, w1]
+      rfl
+  · intro u hu
+    have hsec : ∀ dt' : NaiveDT, NDTInv dt' → NonLeap dt' → ∀ k : Int, instNs dt' = k →
+        (instSecs dt + 1) * 1000000000 ≤ k → k < (instSecs dt + 2) * 1000000000 →
+        instSecs dt' = instSecs dt + 1 := by
+      intro dt' a b k hk h1 h2
+      have e : instNs dt' = instSecs dt' * 1000000000 + dt'.time.frac := rfl
+      have := a.2
+      unfold TValid at this
+      unfold NonLeap at b
+      omega
+    rcases hu with hu | hu <;> subst hu
+    · have hi : isI64 (instNs dt / nsPer .millis) := by unfold isI64; simp only [nsPer]; omega
+      obtain ⟨r, r1, r2, r3⟩ := (ts_rejects tg .millis (instNs dt / nsPer .millis)).1 hi
+      refine ⟨r, w2, r1, ?_, ?_⟩
+      · rw [r2]; simp only [perSec, nsPer]; omega
+      · intro dt' hd
+        obtain ⟨a, b, c⟩ := r3 dt' hd
+        refine ⟨a, b, c, hsec dt' a b _ c ?_ ?_⟩ <;> (simp only [nsPer]; omega)
+    · have hi : isI64 (instNs dt / nsPer .micros) := by unfold isI64; simp only [nsPer]; omega
+      obtain ⟨r, r1, r2, r3⟩ := (ts_rejects tg .micros (instNs dt / nsPer .micros)).1 hi
+      refine ⟨r, w3, r1, ?_, ?_⟩
+      · rw [r2]; simp only [perSec, nsPer]; omega
+      · intro dt' hd
+        obtain ⟨a, b, c⟩ := r3 dt' hd
+        refine ⟨a, b, c, hsec dt' a b _ c ?_ ?_⟩ <;> (simp only [nsPer]; omega)
+
+/-- non-vacuity of `ts_leap_roundtrip`: 2015-06-30T23:59:60.5 and a leap representation on the last second
+of the range (where the milli/microsecond modules write but cannot read) satisfy its hypotheses -/
+example :
+    (NDTInv ⟨dateOfYo 2015 181, ⟨86399, 1500000000⟩⟩ ∧ ¬ NonLeap ⟨dateOfYo 2015 181, ⟨86399, 1500000000⟩⟩) ∧
+    (NDTInv ⟨dateOfYo 262142 365, ⟨86399, 1999999999⟩⟩ ∧ ¬ NonLeap ⟨dateOfYo 262142 365, ⟨86399, 1999999999⟩⟩ ∧
+      instSecs ⟨dateOfYo 262142 365, ⟨86399, 1999999999⟩⟩ = TS_MAX) := by
   decide +kernel
 
 /-- both shapes of real formats satisfy the trusted behaviour as modelled: positional (`bincode`: the integer
